@@ -21,7 +21,7 @@ const NAMES: &[&str] = &[
 /// names that are also directory names of DIRS: a file named like a sibling directory
 const CLASH: &[&str] = &["src", "lib", "deep/er", "src/lib"];
 
-fn gen_cov(rng: &mut Rng, allow_zero: bool) -> CovResult {
+pub(crate) fn gen_cov(rng: &mut Rng, allow_zero: bool) -> CovResult {
     let mut c = CovResult::default();
     let dense = rng.chance(1, 2);
     for _ in 0..rng.below(12) {
@@ -50,7 +50,7 @@ fn gen_cov(rng: &mut Rng, allow_zero: bool) -> CovResult {
 /// result sets: nested directories, files at the root, absolute rel paths (abs differs from rel),
 /// the same file name in different directories, rarely a file named like a sibling directory or
 /// the same rel path twice
-fn gen_set(rng: &mut Rng, allow_zero: bool, collisions: bool) -> RS {
+pub(crate) fn gen_set(rng: &mut Rng, allow_zero: bool, collisions: bool) -> RS {
     let k = rng.below(8);
     let mut out: RS = vec![];
     let mut used = BTreeSet::new();
@@ -74,7 +74,7 @@ fn gen_set(rng: &mut Rng, allow_zero: bool, collisions: bool) -> RS {
     out
 }
 
-fn show_set(rs: &RS) -> String {
+pub(crate) fn show_set(rs: &RS) -> String {
     rs.iter()
         .map(|(a, r, c)| format!("R{}={}={}", hex(a.to_str().unwrap().as_bytes()), hex(r.to_str().unwrap().as_bytes()), show_cov(c)))
         .collect::<Vec<_>>()
@@ -85,7 +85,7 @@ fn case_json(op: &str, rs: &RS, extra: Value) -> Value {
     json!({"op": op, "results": show_set(rs), "detail": extra})
 }
 
-fn parse_set(s: &str) -> RS {
+pub(crate) fn parse_set(s: &str) -> RS {
     s.split(' ')
         .filter(|t| !t.is_empty())
         .map(|t| {
@@ -100,7 +100,7 @@ fn parse_set(s: &str) -> RS {
 }
 
 /// run `f` with `git` out of reach: `output_coveralls` shells out to git for the opaque `git` object
-fn without_git<T>(f: impl FnOnce() -> T) -> T {
+pub(crate) fn without_git<T>(f: impl FnOnce() -> T) -> T {
     let old = std::env::var_os("PATH");
     std::env::set_var("PATH", "/nonexistent-for-c03-docs");
     let r = f();
@@ -473,7 +473,7 @@ pub fn run(rep: &mut Report) {
         replay(rep, case);
     }
     let mut rng = Rng::new(rep.seed ^ 0xC03D0C5);
-    let n = rep.budget(260, 20);
+    let n = rep.budget(180, 20);
     let out = rep.workdir.join("docs_out");
     std::fs::create_dir_all(&out).unwrap();
     let mut reqs: Vec<String> = vec![];
